@@ -47,7 +47,7 @@ def _rand(rng, steps, n, nk):
         k = rng.randint(1, nk)
         if r < 0.5:
             ln = rng.choice([1, 2, 31, 32, 33, 34, 97, 98, 99, 100, 163, 164, 165, 230, 231, rng.randint(1, 66 * n)])
-            vid = rng.randint(1, 4)
+            vid = rng.randint(1, 5)            # 5: a C string, stored through putstr / putstrf and read back through getstr
             ln = max(4, ln) if ln in (1, 2, 3) else ln
             if vid >= 3: ln = max(ln, 8)          # values 3/4 equal value 1 up to an embedded NUL at offset 5
             seg.append(dict(op="put", a=k, vid=vid, len=ln))
